@@ -28,7 +28,7 @@ def run(ctx):
     rts = roots(ctx, ENTRY)
     sc = scope_of(ctx, rts, within=lambda p: p.startswith("pocket_types::"))
     ctx.floor("C19.scope-functions", len(sc), 40)
-    obs = g_obligations(ctx, sc, ("cast", "index", "slice", "panic"))
+    obs = g_obligations(ctx, sc, ("cast", "index", "slice", "panic", "arith"))
     ctx.floor("C19.sites", len(obs), 150)
     n_narrow = sum(1 for o in obs if o.rule == "G-NARROW")
     ctx.instances["C19.narrowing-casts"] = n_narrow
